@@ -80,10 +80,12 @@ def run(ctx):
     ctx.add("wrong_length_right_checksum_strings", sum(1 for r in rows if r["kind"] == "parse" and r["hex"] == "valid"
                                                        and r["sum"] == "right" and r["total"] != 37))
     ctx.add("misplaced_checksum_strings", sum(1 for r in rows if r["kind"] == "parse-x" and r["sum"] == "wrong"))
+    ctx.add("one_digit_off_strings", sum(1 for r in rows if r["kind"] == "parse-x" and r["hex"] == "odd"))
     ctx.add("rows_rejected_by_spec", len(rejected))
     ctx.add("traces_validated_against_impl", n - len(rejected))
     ctx.cov["exhaustive"] = mc is not None
-    if ctx.only is None and not (ctx.cov["wrong_length_right_checksum_strings"] and ctx.cov["misplaced_checksum_strings"]):
+    if ctx.only is None and not (ctx.cov["wrong_length_right_checksum_strings"] and ctx.cov["misplaced_checksum_strings"]
+                                 and ctx.cov["one_digit_off_strings"]):
         raise vlib.Infra("vacuity: no wrong-length string with a right checksum / no misplaced-checksum string was tried")
     ctx.sample({"kind": "parse row", "row": next((r for r in rows if r["kind"] == "parse" and r["total"] == 38), rows[0])})
     ctx.sample({"kind": "misplaced-checksum row", "row": next((r for r in rows if r["kind"] == "parse-x"), rows[0])})
@@ -95,7 +97,9 @@ def run(ctx):
                        "TLC's state count) instantiated with seeded random bytes and the real checksum, plus strings "
                        "that carry checksum / hash material of a full address in the wrong place (address ++ hash suffix "
                        "of every length 0..32 but 4, hash prefix / middle, checksum in front / in the middle / reversed / "
-                       "doubled / followed by extra bytes; features lexed from the string), plus seeded "
+                       "doubled / followed by extra bytes; features lexed from the string) and canonical texts with one hex "
+                       "digit removed or added at the front / back / middle (addresses with and without a leading 0 "
+                       "nibble), plus seeded "
                        "address format->lex->parse round trips. distinct = distinct input strings; non-trivial = not the "
                        "canonical well-formed encoding" % TOTALS)
     ctx.assumptions += ["hashing.Checksum (avalanchego) is the definition of the checksum",
